@@ -83,10 +83,11 @@ PROPS = {
         level='proof',
         units=['name:EXEC.IF', 'name:EXEC.K', 'name:EXEC.S', 'name:EXEC.Y', 'name:EXEC.DUP', 'name:EXEC.LOOP', 'name:CODE.LOOP', 'name:CODE.IF', 'name:CODE.DO',
                'name:CODE.DO*', 'name:CODE.QUOTE', 'name:INTVECTOR.LOOP', 'nameglob:INDEX.*', 'path:interpreter::PushInterpreter::step'] + STACK_API,
-        explanation='single steps: each combinator\'s new EXEC/CODE/INDEX stacks equal the documented rearrangement; list execution pushes the elements so that the first is on top',
+        explanation='single steps: each combinator\'s new EXEC/CODE/INDEX stacks equal the documented rearrangement; list execution pushes the elements so that the first is on top; '
+                    'the one-round consistency of the loop unfoldings: the code EXEC.LOOP re-arms with hands the body back to EXEC.LOOP (by construction of the list), and the code CODE.LOOP re-arms with must bring the body back to the CODE stack '
+                    'before CODE.LOOP runs again (clause fired.rearm.next-round-finds-its-body: fails on the pinned tree -> known finding, confirmed natively)',
         not_decided=['whole-loop iteration counts (EXEC.LOOP / CODE.LOOP / INTVECTOR.LOOP run the body exactly n times): a multi-step property over the proved step transformers; not built',
-                     'CODE.LOOP re-arms with ( INDEX.INCREASE CODE.LOOP body ) but takes its body from the CODE stack: confirmed natively to run the body twice for destination 3 and leave 1/3 on INDEX '
-                     '(input `( 3 INDEX.DEFINE CODE.QUOTE ( 7 ) CODE.LOOP )`); only the multi-step lemma would expose it; the re-arm list is pinned by unit test code_loop_pushes_body_and_updated_loop'],
+                     'nested loops and bodies that themselves touch INDEX / EXEC / CODE: follow only under a stated hypothesis on the body'],
     ),
     'C10': dict(
         level='proof',
@@ -119,7 +120,7 @@ PROPS = {
     'C08': dict(
         level='proof',
         units=['path:item::Item::*', 'path:item::PushType::*', 'nameglob:CODE.*', 'path:stack::PushStack::*'],
-        label_re=r'^C(08|04|05|06|07|10|12)',
+        label_re=r'^C(08|04|05|07|10|12)',   # (C06-only clauses of CODE.DO / IF / LOOP / QUOTE are read by C06)
         all_labels_in_scope=True,
         thorough=True,
         explanation='Item::size == points, Item::traverse == nth_point (depth first, top first), Item::equals == deep_eq, Item::contains == first_pos (with the lemma: the point at first_pos is deep-equal to the pattern, '
